@@ -74,7 +74,6 @@ func (prop) Generate(rng *core.Rand, tier string, emit func(string)) {
 	} else if tier == "search" {
 		n = 60000
 	}
-	emit("cost known 20000 4")
 	emit("cost all 200000 4")
 	emit("cost orerr 200000 4")
 	for c := 0; c < n/4; c++ {
